@@ -128,7 +128,7 @@ type vfc16Block struct {
 // vfc16BuildBlock generates an index and records the always-loaded BinaryReader's answers.
 func vfc16BuildBlock(ctx context.Context, r *vfkit.Run, root string, b int) (*vfc16Block, error) {
 	rng := r.RandS("block", b)
-	ix, err := vfc11BuildIndex(ctx, rng, filepath.Join(root, fmt.Sprintf("blk%d", b)), 900000+b, 150, 90)
+	ix, err := vfc11BuildIndex(ctx, rng, filepath.Join(root, fmt.Sprintf("blk%d", b)), 900000+b, 150, 90, false)
 	if err != nil {
 		return nil, err
 	}
@@ -185,11 +185,11 @@ const (
 	vfc16EvStart = iota
 	vfc16EvEnd
 	vfc16EvUnloadBegin
-	vfc16EvUnloadEnd      // effective (the header was unmapped)
-	vfc16EvUnloadEndNoop  // nothing was unloaded
-	vfc16EvWinUpgrade     // a call is between RUnlock and Lock in load()
-	vfc16EvWinDowngrade   // a call is between Unlock and RLock in load()
-	vfc16EvCleanErr       // a call returned errUnloadedWhileLoading
+	vfc16EvUnloadEnd     // effective (the header was unmapped)
+	vfc16EvUnloadEndNoop // nothing was unloaded
+	vfc16EvWinUpgrade    // a call is between RUnlock and Lock in load()
+	vfc16EvWinDowngrade  // a call is between Unlock and RLock in load()
+	vfc16EvCleanErr      // a call returned errUnloadedWhileLoading
 )
 
 type vfc16Ev struct {
@@ -549,8 +549,17 @@ func TestVF_C16(t *testing.T) {
 				continue
 			}
 			seen[s.op] = true
-			ans, err := cs.readers[s.reader].LabelValues(s.op.name)
-			got, fault := vfc16GuardedSer(ans)
+			var ans any
+			var err error
+			var got, fault, pnc string
+			vfc16OwnGoroutine(func() {
+				ans, err, pnc = vfc16GuardedCall(cs.readers[s.reader], s.op)
+				got, fault = vfc16GuardedSer(ans)
+			})
+			if pnc != "" {
+				r.Violation(c, "panic-in-call:labelvalues", fmt.Sprintf("%s on the lazy reader panicked/faulted in a quiescent state after concurrent idle unloading: %s", s.op, strings.SplitN(pnc, "\n", 2)[0]), map[string]any{"case": cs.desc, "op": s.op.String(), "panic": pnc})
+				continue
+			}
 			w := map[string]any{"case": cs.desc, "op": s.op.String(), "observed_concurrently": s.what, "always_loaded_answer": s.op.want, "quiescent_answer": got, "quiescent_error": fmt.Sprint(err)}
 			if err == nil && fault == "" && got == s.op.want {
 				r.Violation(c, "labelvalues:answer-invalidated-by-unload", fmt.Sprintf("%s returned strings that alias the mmapped header; an idle unload after the call returned unmapped them while the caller was still reading the answer (%s); the same call in a quiescent state answers correctly", s.op, s.what), w)
@@ -606,12 +615,14 @@ func vfc16Probe(r *vfkit.Run, cs *vfc16Case, rng interface{ Intn(int) int }) {
 		return
 	}
 	op := &blk.ops[blk.lv[rng.Intn(len(blk.lv))]]
-	done := make(chan struct{})
-	go func() { // own goroutine: SetPanicOnFault is per goroutine
-		defer close(done)
-		debug.SetPanicOnFault(true)
+	vfc16OwnGoroutine(func() {
 		fmt.Printf("VF-INFLIGHT case=%d probe: %s on a lazy reader, idle unload (closeIdleReaders), then the caller reads the returned values\n", cs.c, op)
-		ans, err := rd.LabelValues(op.name)
+		ans, err, pnc := vfc16GuardedCall(rd, op)
+		if pnc != "" {
+			r.Eval(1)
+			r.Violation(cs.c, "panic-in-call:labelvalues", fmt.Sprintf("%s on the lazy reader panicked/faulted in a quiescent state after concurrent idle unloading: %s", op, strings.SplitN(pnc, "\n", 2)[0]), map[string]any{"case": cs.desc, "op": op.String(), "panic": pnc})
+			return
+		}
 		if err != nil {
 			r.Count("probe_skipped", 1)
 			return
@@ -640,6 +651,17 @@ func vfc16Probe(r *vfkit.Run, cs *vfc16Case, rng interface{ Intn(int) int }) {
 			r.Violation(cs.c, "labelvalues:answer-invalidated-by-unload", fmt.Sprintf("%s returned strings that alias the mmapped header; after %s unloaded the idle header, %s", op, how, what),
 				map[string]any{"case": cs.desc, "steps": []string{"vals, _ := lazy." + op.String(), how + " // idle timeout passed, header munmapped", "read vals // " + what}, "always_loaded_answer": op.want})
 		}
+	})
+}
+
+// vfc16OwnGoroutine runs f in a goroutine of its own with SetPanicOnFault (which is per goroutine)
+// and waits for it.
+func vfc16OwnGoroutine(f func()) {
+	done := make(chan struct{})
+	go func() {
+		defer close(done)
+		debug.SetPanicOnFault(true)
+		f()
 	}()
 	<-done
 }
